@@ -175,9 +175,25 @@ pub fn farm_shard(
     rep
 }
 
+const WPOOL_NOTE: &str = " || W-pool generator: amplifications 1..u64::MAX, registry and creator-declared decimals (0..18), fee structures 0..20%, zero / same-denom / other-denom creation and token-factory fees per shard, block times with sub-second parts, scripted 'exodus' episodes (every withdrawable holder of one pool leaves, dust trades, re-seed), degenerate self-hops, routes revisiting pools.";
+const WFARM_NOTE: &str = " || W-farm generator: per-shard farm limits {1,2,3,12}, epoch durations {86400, 129600, 100003, 604800} s, sub-second block times, farms of 1..400 epochs and practically open-ended ones (end up to u64::MAX), budgets from 1000, under-/over-funded creations, positions named with and without the contract's identifier prefix, scripted 'leave and return' episodes (claim, close everything in one LP token - some in pieces -, stay away, re-open, claim).";
+
 fn fin(mut rep: Reporter, cfg: &RunCfg, level: &str, rule: &str, assumptions: &[&str], t0: Instant, extra: serde_json::Value) -> i32 {
     crate::pinned::run_pinned(&cfg.property, &mut rep);
-    rep.finish(&cfg.tier, cfg.seed, level, rule, assumptions, t0.elapsed().as_secs_f64(), extra)
+    let probes = match cfg.property.as_str() {
+        "C02" => " || forked drain_and_reseed probe every 40th step (existing pool or a fresh high-fee pool: provide, churn swaps, every holder withdraws all, re-seed, leave), each forked message judged by the same clauses.",
+        "C07" => " || forked many_farms_probe every 400th step (limit raised to 14, 13 farms with automatic and explicit identifiers on one LP token, three epochs, every staker claims), fed to the ledger and judged by the same clauses.",
+        "C11" => " || forked drained_farm_probe every 200th step (fresh pool with one staker, divisible budget claimed to exactly zero, close by owner / contract owner / on the way of a creation, creations up to the limit), judged by the same clauses; transfers compared netted per (from, to, denom).",
+        "C12" => " || every simple route is also re-executed with minimum_receive in {quote, quote-1, quote/2, 0} and another receiver: quoted amount each time.",
+        "C13" => " || every executed route (any shape) is re-run from its pre-state with minimum_receive = delivered (must execute, same output) and delivered + 1 (must fail as a whole).",
+        "C17" => " || one toggle in three also restates current values of the other configuration fields in the same message.",
+        "C19" => " || kernel amplifications 1..u64::MAX; one case in twelve has reserves at or beyond the 128-bit normalisation edge (refusal path).",
+        "C04" => " || transfers compared netted per (kind, from, to, denom).",
+        "C09" => " || the penalty is recovered from what each party ends up with (independent of how transfers are batched).",
+        _ => "",
+    };
+    let rule = format!("{rule}{probes}{}{}", if rule.contains("W-pool") { WPOOL_NOTE } else { "" }, if rule.contains("W-farm") { WFARM_NOTE } else { "" });
+    rep.finish(&cfg.tier, cfg.seed, level, &rule, assumptions, t0.elapsed().as_secs_f64(), extra)
 }
 
 fn perm_c01(w: &mut World, rep: &mut Reporter, ctx: &str) {
